@@ -27,6 +27,9 @@ pub fn reader_classes() -> Vec<&'static str> {
         "seq_data_far_gap_wide", "seq_two_far_data_hb_between",
         // the datagram as such (meaningful on the socket path; harmless when injected directly)
         "sock_empty", "sock_one_byte", "sock_max_size", "sock_burst_64", "sock_empty_between_valid",
+        // submessages the MessageReceiver interprets itself, whoever sent them: element counts and short bodies
+        "interp_info_reply_count_max", "interp_info_reply_count_huge", "interp_info_reply_mcast_count_huge", "interp_info_reply_ip4",
+        "interp_short_bodies", "interp_info_src_dst_ts_then_data",
     ]
 }
 
@@ -251,6 +254,53 @@ pub fn reader_datagrams(cls: &str, ctx: &Ctx) -> Vec<Vec<u8>> {
                 hb(far, far + (1i64 << 40), c),
             ]
         }
+        // INFO_REPLY: unicastLocatorList (count, then 24 octets per locator) [, multicastLocatorList]
+        "interp_info_reply_count_max" => vec![wire::encode(p, &[Sub::Other { kind: 0x0f, flags: 1, body: u32::MAX.to_le_bytes().to_vec() }])],
+        "interp_info_reply_count_huge" => {
+            let mut with_one = 0xA357_0000u32.to_le_bytes().to_vec();
+            with_one.extend_from_slice(&[0u8; 24]);
+            vec![
+                wire::encode(p, &[Sub::Other { kind: 0x0f, flags: 1, body: 0xA357_0000u32.to_le_bytes().to_vec() }]),
+                wire::encode(p, &[Sub::Other { kind: 0x0f, flags: 1, body: with_one }]),
+                wire::encode(p, &[Sub::Other { kind: 0x0f, flags: 0, body: 0x0FFF_FFFFu32.to_be_bytes().to_vec() }]),
+            ]
+        }
+        "interp_info_reply_mcast_count_huge" => {
+            // no unicast locator, multicast flag set, multicast count huge (with and without the 1-octet tag of finding X2)
+            let mut a = 0u32.to_le_bytes().to_vec();
+            a.extend_from_slice(&u32::MAX.to_le_bytes());
+            let mut b = 0u32.to_le_bytes().to_vec();
+            b.push(1);
+            b.extend_from_slice(&u32::MAX.to_le_bytes());
+            vec![wire::encode(p, &[Sub::Other { kind: 0x0f, flags: 3, body: a }]), wire::encode(p, &[Sub::Other { kind: 0x0f, flags: 3, body: b }])]
+        }
+        "interp_info_reply_ip4" => vec![
+            wire::encode(p, &[Sub::Other { kind: 0x0d, flags: 1, body: vec![0xff; 8] }]),
+            wire::encode(p, &[Sub::Other { kind: 0x0d, flags: 3, body: vec![0xff; 16] }]),
+            wire::encode(p, &[Sub::Other { kind: 0x0d, flags: 3, body: vec![0xff; 3] }]),
+        ],
+        "interp_short_bodies" => {
+            let mut v = vec![];
+            for k in [0x01u8, 0x09, 0x0c, 0x0d, 0x0e, 0x0f] {
+                for len in [0usize, 1, 3, 4, 7, 8, 11, 12, 16, 19, 20, 24, 28] {
+                    for flags in [0u8, 1, 3] {
+                        v.push(wire::encode(p, &[Sub::Other { kind: k, flags, body: vec![0xff; len] }]));
+                    }
+                }
+            }
+            v
+        }
+        // receiver state set by a stranger's INFO_* must not take a following well-formed submessage down with it
+        "interp_info_src_dst_ts_then_data" => vec![wire::encode(
+            p,
+            &[
+                Sub::Other { kind: 0x0c, flags: 1, body: vec![0xff; 20] },
+                Sub::Other { kind: 0x0e, flags: 1, body: vec![0xff; 12] },
+                Sub::Other { kind: 0x09, flags: 1, body: vec![0xff; 8] },
+                data(ctx, n, Some(good_payload(n)), None, false),
+                Sub::Heartbeat { reader: ctx.reader_eid, writer: ctx.writer_eid, first: 1, last: n, count: c, final_flag: false, liveliness: false },
+            ],
+        )],
         "mangle_short" => vec![b"RTPS".to_vec(), vec![], b"RTPS\x02\x04\x01\x12DDSPINGxxxx"[..16].to_vec(), vec![0xff; 19]],
         _ => vec![],
     }
